@@ -168,7 +168,7 @@ def main():
             res.violations.append({"why": f"SafetyNet attestation rejected with timestamp only {d} ms away from the verifier's clock: {code.get('msg')}",
                                    "delta_ms": d, "match": {"op": "verify_reg", "clock": "safetynet-complete"}})
     # the right instant in the wrong unit (seconds, microseconds) or no instant at all: decades outside the window
-    for f in ("S.ts-in-seconds", "S.ts-in-microseconds", "S.ts-zero"):
+    for f in ("S.ts-in-seconds", "S.ts-in-microseconds", "S.ts-zero", "S.ts-nan", "S.ts-minus-infinity"):
         for dt in (0.0, 3.0, -3.0):
             set_clock(T0 + dt + 0.5)
             bu = _reg.build("android-safetynet", ("p256", 2, core.ES256), (f,), base_time=base)
@@ -187,7 +187,7 @@ def main():
             res.count("safetynet-unit:" + corr.kind(code))
             if code["k"] == "accept":
                 res.violations.append({"why": f"SafetyNet attestation accepted although its timestampMs ({f}) is decades away from the "
-                                              f"verifier's clock", "fault": f, "match": {"op": "verify_reg", "clock": "safetynet-unit"}})
+                                              f"verifier's clock, or no instant at all", "fault": f, "match": {"op": "verify_reg", "clock": "safetynet-unit"}})
     # same SafetyNet response verified again after the clock has left the window
     trail = []
     for t_ms in [ts_ms, ts_ms + 5000, ts_ms + 12000, ts_ms, ts_ms - 12000, ts_ms + 1000]:
